@@ -18,7 +18,9 @@ CONSTANTS DeepAlpha,   \* segment alphabet for deep paths
           HeadMax,     \* all head x head combinations up to this path length
           StrMax,      \* strcmp0 cases up to this path length
           ListMax,     \* filter cases: max length of type lists
-          ScopeListMax \* filter cases: max length of scope lists
+          ScopeListMax,\* filter cases: max length of scope lists
+          Which        \* "scope" | "filter" | "select": the domain this run enumerates (TLC evaluates
+                       \* constant definitions eagerly, so only the chosen domain is ever built)
 
 VARIABLE case
 
@@ -39,7 +41,8 @@ Pairs(hp, alpha, n, rules) ==
      WellFormed(c.a) /\ WellFormed(c.b)}
 AllHeadPairs == {<<x[1], x[2], y[1], y[2]>> : x \in Heads, y \in Heads}
 
-ScopeCases == Pairs(HeadPairs, DeepAlpha, DeepMax, {"rfc3986"})
+ScopeCases == IF Which # "scope" THEN {} ELSE
+              Pairs(HeadPairs, DeepAlpha, DeepMax, {"rfc3986"})
               \cup Pairs(SameHeadPair, WideAlpha, WideMax, {"rfc3986", "absent"})
               \cup Pairs(AllHeadPairs, DeepAlpha, HeadMax, Rules)
               \cup Pairs(HeadPairs, DeepAlpha, StrMax, {"strcmp0"})
@@ -89,7 +92,7 @@ FilterDomRfc == [types : {NoList}, scopes : {Opt(TRUE, l) : l \in Lists(FilterUr
 ServiceDom == [types : Lists(TypeTokens, ListMax), scopes : Lists(FilterUris, ScopeListMax), noScopesElem : BOOLEAN]
 Services == {s \in ServiceDom : s.noScopesElem => s.scopes = <<>>}
 
-FilterCases == [srv : Services, flt : FilterDom \cup FilterDomRfc]
+FilterCases == IF Which # "filter" THEN {} ELSE [srv : Services, flt : FilterDom \cup FilterDomRfc]
 FilterInit == case \in FilterCases
 FilterSpec == FilterInit /\ [][Stay]_case
 
@@ -109,21 +112,20 @@ SelServices == { [types |-> <<"n1:A">>, scopes |-> <<FU2>>, noScopesElem |-> FAL
                  [types |-> <<>>, scopes |-> <<FU1>>, noScopesElem |-> FALSE] }
 SelFilters == [types : OptLists(TypeTokens, 1) \cup {Opt(TRUE, <<"n1:A", "n1:B">>)},
                scopes : OptLists(FilterUris, 1) \cup {Opt(TRUE, <<FU1, FU2>>)}, rule : Rules]
-SelectCases == [srvs : Lists(SelServices, 3), flt : SelFilters]
+SelectCases == IF Which # "select" THEN {} ELSE [srvs : Lists(SelServices, 3), flt : SelFilters]
 SelectInit == case \in SelectCases
 SelectSpec == SelectInit /\ [][Stay]_case
 LawSelect == /\ Select(case.srvs, case.flt) \subseteq DOMAIN case.srvs
              /\ \A i \in DOMAIN case.srvs : (i \in Select(case.srvs, case.flt)) = MatchesFilter2(case.srvs[i], case.flt)
 
 \* ---- emission ---------------------------------------------------------------------
+Cases == CASE Which = "scope" -> ScopeCases [] Which = "filter" -> FilterCases [] Which = "select" -> SelectCases
 Tables == [lower |-> LowerOf, dec |-> DecOf]
-EmitScope == JsonSerialize(IOEnv.OUT_FILE, [cases |-> SetToSeq(ScopeCases), tables |-> Tables])
-EmitFilter == JsonSerialize(IOEnv.OUT_FILE, [cases |-> SetToSeq(FilterCases), tables |-> Tables])
-EmitSelect == JsonSerialize(IOEnv.OUT_FILE, [cases |-> SetToSeq(SelectCases), tables |-> Tables])
-\* every case was a state (visited) - checked as postcondition together with the emission
-VisitedScope == TLCGet("distinct") = Cardinality(ScopeCases) /\ EmitScope
-VisitedFilter == TLCGet("distinct") = Cardinality(FilterCases) /\ EmitFilter
-VisitedSelect == TLCGet("distinct") = Cardinality(SelectCases) /\ EmitSelect
+\* written once when TLC evaluates the assumption (before the behaviours are explored)
+ASSUME JsonSerialize(IOEnv.OUT_FILE, [cases |-> SetToSeq(Cases), tables |-> Tables])
+\* every case was a state (visited)
+NumCases == Cardinality(Cases)
+Visited == TLCGet("distinct") = NumCases
 
 \* ---- alphabets per tier ---------------------------------------------------------------
 Alpha5 == {"a", "A", "%61", "%2F", ""}
